@@ -884,6 +884,7 @@ func (r *reader) partial(format string, args ...any) {
 // push an object that is complete. Quote-like markers waiting on the stack
 // ('  #'  `  ,  ,@) are applied to it first, innermost first.
 func (r *reader) push(obj Object) {
+	var qd quotedData
 	for 0 < len(r.stack) {
 		var create func(args List) Object
 		switch r.stack[len(r.stack)-1] {
@@ -917,10 +918,10 @@ func (r *reader) push(obj Object) {
 			break
 		}
 		switch m := r.stack[len(r.stack)-1]; {
-		case m == quoteMarker && r.inQuotedData():
+		case m == quoteMarker && r.inQuotedData(&qd):
 			// 'x inside quoted data is the list (quote x), not a call of quote.
 			obj = List{Symbol("quote"), obj}
-		case m == sharpQuoteMarker && r.inQuotedData():
+		case m == sharpQuoteMarker && r.inQuotedData(&qd):
 			obj = List{Symbol("function"), obj}
 		default:
 			obj = create(List{obj})
@@ -938,23 +939,43 @@ func (r *reader) push(obj Object) {
 // inQuotedData returns true if what is being read is part of a quoted datum:
 // a quote marker is waiting further down on the stack or an enclosing list
 // starts with the symbol quote. Data inside a backquote is left as it is.
-func (r *reader) inQuotedData() bool {
-	for _, v := range r.stack[:len(r.stack)-1] {
-		switch v {
-		case backquoteMarker:
-			return false
-		case quoteMarker:
-			return true
+// The stack below the markers that one push collapses does not change while
+// they are collapsed, so it is looked through once per push (qd) and not once
+// per marker: a long run of markers is read in linear time.
+func (r *reader) inQuotedData(qd *quotedData) bool {
+	if !qd.done {
+		qd.done = true
+		qd.first = len(r.stack)
+		for i, v := range r.stack[:len(r.stack)-1] {
+			if v == backquoteMarker || v == quoteMarker {
+				qd.first = i
+				qd.quote = v == quoteMarker
+				break
+			}
 		}
-	}
-	for _, start := range r.starts {
-		if start+1 < len(r.stack)-1 {
-			if sym, ok := r.stack[start+1].(Symbol); ok && strings.EqualFold(string(sym), "quote") {
-				return true
+		for _, start := range r.starts {
+			if start+1 < len(r.stack)-1 {
+				if sym, ok := r.stack[start+1].(Symbol); ok && strings.EqualFold(string(sym), "quote") {
+					qd.list = true
+					break
+				}
 			}
 		}
 	}
-	return false
+	if qd.first < len(r.stack)-1 {
+		return qd.quote
+	}
+	return qd.list
+}
+
+// quotedData is what inQuotedData found out about the stack below the markers
+// being collapsed: the index of the lowest waiting quote or backquote marker,
+// which of the two it is, and whether an enclosing list starts with quote.
+type quotedData struct {
+	done  bool
+	first int
+	quote bool
+	list  bool
 }
 
 func (r *reader) closeList() {
